@@ -72,13 +72,16 @@ fn main() -> ExitCode {
         }
     }
 
-    if env::args().len() == 1 {
+    if env::args_os().len() == 1 {
         short_usage_info(no_color);
         help_hint();
         return ExitCode::SUCCESS;
     }
 
-    let mut args: Vec<String> = env::args().collect();
+    // (an argument that is not valid text is taken as far as it can be read: it is no reason to abort)
+    let mut args: Vec<String> = env::args_os()
+        .map(|arg| arg.to_string_lossy().into_owned())
+        .collect();
     args.remove(0);
 
     let mut first_arg = args[0].to_ascii_lowercase();
